@@ -22,7 +22,8 @@ META = {
         "setters covering their attribute tables with defaults assigned "
         "before the config is applied, and dead parser parameters. Not "
         "decided: that two channels give observably equal results."
-        ' Also: generic option forwarding (DEADPARAM / FORWARD / SIB-DEFAULTS / delegate names), construct_tracts hands parse_qq to every Tract, parse_tracts forwards its arguments as given (provenance), the reader applies a parsed setting unless it is None (three-valued str_to_value), keyword-wins by constant propagation, MasterConfig is the last fallback.'),
+        ' Also: generic option forwarding (DEADPARAM / FORWARD / SIB-DEFAULTS / delegate names), construct_tracts hands parse_qq to every Tract, parse_tracts forwards its arguments as given (provenance), the reader applies a parsed setting unless it is None (three-valued str_to_value), keyword-wins by constant propagation, MasterConfig is the last fallback.'
+        ' Round 7: the .config setters are not gated on .config_text; Config.decompile_to_text writes typed settings only; the word dispatch of _text_to_attributes is evaluated on layout names, directions, boolean settings and non-settings.'),
     'families': ['TBL', 'LOCK', 'DEADPARAM', 'SIB', 'FORWARD', 'DEADPARAM', 'SIB-DEFAULTS'],
 }
 
@@ -645,6 +646,10 @@ def word_dispatch(ctx, rule='TBL'):
             return
         n += 1
         if got != target:
+            if target == 'typed' and got not in ('layout', 'default_ns', 'default_ew'):
+                # a word of its own that some new branch understands: an extension, not a misrouting
+                ctx.undecided(rule, construct, f"{word!r} is handled by a branch that stores `{got}`")
+                continue
             wrong.append((word, got, target))
     ex = wrong[0] if wrong else None
     ctx.check(not wrong, rule, construct, f"{n} words classified",
